@@ -1,6 +1,6 @@
 """Seeds of script programs (C10): JSON spec <-> Python value <-> the integer the Coq model uses as the seed.
 
-spec = n (int, any size or sign) | ["f", "q"] (float with that exact value) | ["s", text] | ["b", hex]
+spec = n (int, any size or sign) | ["f", "q"] (float with that exact value) | ["s", text] | ["b", hex] | ["bool", b] | ["nz", 0] (-0.0)
 All of them are legal arguments of random.Random() and of Routine.rand_seed."""
 import hashlib
 from fractions import Fraction
@@ -16,6 +16,10 @@ def seed_value(spec):
         return spec[1]
     if k == 'b':
         return bytes.fromhex(spec[1])
+    if k == 'bool':
+        return bool(spec[1])
+    if k == 'nz':
+        return -0.0
     raise ValueError(spec)
 
 
@@ -23,7 +27,7 @@ def seed_code(spec):
     """injective (up to sha1) integer name of the seed for the model; ints keep their value (times 8)"""
     if isinstance(spec, int):
         return 8 * spec
-    kind = {'f': 1, 's': 2, 'b': 3}[spec[0]]
+    kind = {'f': 1, 's': 2, 'b': 3, 'bool': 4, 'nz': 6}[spec[0]]
     h = int.from_bytes(hashlib.sha1(repr(spec[1]).encode()).digest()[:7], 'big')
     return 8 * h + kind
 
@@ -32,5 +36,5 @@ def main_code(mseed):
     return 8 * int(mseed) + 5
 
 
-SEED_POOL = [1, 2, 3, 7, 12345, -7, 0, 2 ** 70 + 5, -(2 ** 65), ['f', '1/2'], ['f', '-3/4'], ['f', '12345'],
+SEED_POOL = [1, 2, 3, 7, 12345, -7, 0, 0, ['f', '0'], ['nz', 0], ['bool', False], ['bool', True], 2 ** 70 + 5, -(2 ** 65), ['f', '1/2'], ['f', '-3/4'], ['f', '12345'],
              ['s', 'a'], ['s', 'seed'], ['s', 'sc3 routine'], ['s', ''], ['b', '00ff'], ['b', '7365656400'], ['b', '']]
